@@ -38,6 +38,7 @@ class Ctx:
         self.rng = random.Random(f"{seed}/{prop}/{shard}")
         self.counters = collections.Counter()
         self.nontrivial = set()
+        self.sets = collections.defaultdict(set)  # named sets of hashed observations, merged by union across shards
         self.samples = []
         self.failures = []
         self.nfail = 0
@@ -56,6 +57,10 @@ class Ctx:
 
     def count(self, name, n=1):
         self.counters[name] += n
+
+    def seen(self, name, key):
+        """Record a distinct observation (e.g. an interleaving signature) under a named set."""
+        self.sets[name].add(h64(key))
 
     def nt(self, key):
         """Record one distinct non-trivial case (by canonical key)."""
@@ -110,6 +115,7 @@ class Ctx:
         return {
             "counters": dict(self.counters),
             "nontrivial": sorted(self.nontrivial),
+            "sets": {k: sorted(v) for k, v in self.sets.items()},
             "samples": self.samples,
             "failures": self.failures,
             "nfail": self.nfail,
@@ -126,6 +132,8 @@ class Ctx:
             else:
                 self.counters[k] += v
         self.nontrivial.update(d["nontrivial"])
+        for k, v in d.get("sets", {}).items():
+            self.sets[k].update(v)
         for s in d["samples"]:
             if len(self.samples) < MAX_SAMPLES:
                 self.samples.append(s)
